@@ -298,6 +298,49 @@ func TestEveryCodePoint(t *testing.T) {
 	h.R.Exhaustive("codepoint", fmt.Sprintf("every Unicode scalar value in %d source templates (shard %d/%d)", len(templates), shard, nsh))
 }
 
+// TestDeepNesting - sources that nest one construct very deeply (far deeper than any program
+// would): the front end answers with a tree or a syntax error; it must not exhaust the stack
+// of the host process (that is a fatal error no handler can catch)
+func TestDeepNesting(t *testing.T) {
+	depths := []int{100, 1999, 2000, 2001, 10000, 200000, 1500000}
+	if h.Thorough() {
+		depths = append(depths, 4000000)
+	}
+	shapes := []struct{ name, open, mid, close string }{
+		{"braces", "{", "A", "}"},
+		{"lists", "【", "1", "】"},
+		{"calls", "（F：", "1", "）"},
+		{"dictionaries", "【“k” = ", "1", "】"},
+		{"unclosed-braces", "{", "A", ""},
+		{"method-chains", "以", "A（F）", "（F）"},
+		{"not-operators", "A + ", "1", ""},
+	}
+	for _, sh := range shapes {
+		for _, n := range depths {
+			src := "令甲 = " + strings.Repeat(sh.open, n) + sh.mid + strings.Repeat(sh.close, n) + "\n输出甲\n"
+			h.TrackCurrent(fmt.Sprintf("deep nesting: %s x %d", sh.name, n))
+			fails := checkFront(src)
+			c := srcCase{Src: src}
+			if n > 3000 {
+				c = srcCase{Src: fmt.Sprintf("<%s nested %d deep>", sh.name, n)} // (kept out of the evidence file)
+			}
+			h.R.Case(t, "nesting", fmt.Sprintf("%s-%d", sh.name, n), c, []string{"deep-" + sh.name}, true, fails)
+		}
+	}
+	// blocks nested by indentation
+	for _, n := range []int{100, 1500, 2500, 20000} {
+		var b strings.Builder
+		for i := 0; i < n; i++ {
+			b.WriteString(strings.Repeat("    ", i) + "如果真：\n")
+		}
+		b.WriteString(strings.Repeat("    ", n) + "输出1\n")
+		src := b.String()
+		h.TrackCurrent(fmt.Sprintf("deep nesting: blocks x %d", n))
+		fails := checkFront(src)
+		h.R.Case(t, "nesting", fmt.Sprintf("blocks-%d", n), srcCase{Src: fmt.Sprintf("<如果 blocks nested %d deep>", n)}, []string{"deep-blocks"}, true, fails)
+	}
+}
+
 func TestSeedsThemselves(t *testing.T) {
 	for _, s := range seeds() {
 		runBoth(t, "seed", s)
